@@ -62,8 +62,19 @@ func Sanitize(s string) string {
 	return s
 }
 
+// OutDir is where evidence and replay files go: the verif directory, unless VERIF_OUT names another
+// one (runs against scratch copies of the repository - seeded changes, mutants - must not replace
+// the evidence that describes /repo).
+func OutDir(verifDir string) string {
+	if d := os.Getenv("VERIF_OUT"); d != "" {
+		return d
+	}
+	return verifDir
+}
+
 // WriteEvidence writes /verif/evidence/<prop>.json.
 func WriteEvidence(verifDir, prop, tier string, seed int64, level string, coverage map[string]interface{}, assumptions []string, t0 time.Time, violations int) error {
+	verifDir = OutDir(verifDir)
 	os.MkdirAll(filepath.Join(verifDir, "evidence"), 0o755)
 	ev := map[string]interface{}{
 		"property_id": prop,
@@ -84,7 +95,7 @@ func WriteEvidence(verifDir, prop, tier string, seed int64, level string, covera
 
 // WriteReplay stores a violation artefact and returns its path.
 func WriteReplay(verifDir, prop, name string, v interface{}) string {
-	dir := filepath.Join(verifDir, "replays")
+	dir := filepath.Join(OutDir(verifDir), "replays")
 	os.MkdirAll(dir, 0o755)
 	path := filepath.Join(dir, Sanitize(prop+"-"+name)+".json")
 	b, _ := json.MarshalIndent(v, "", " ")
